@@ -158,6 +158,11 @@ func (c *V2) Do(op Op) (out Outcome) {
 			ctx = c2
 		}
 	}
+	if op.DoneCtx != "" {
+		c2, cancel := DoneContext(op.DoneCtx)
+		defer cancel()
+		ctx = c2
+	}
 	fin := func(err error) Outcome {
 		cls, msg := ClassifyErr(err)
 		o := Outcome{Class: cls, Msg: msg}
@@ -264,6 +269,9 @@ func (c *V2) Do(op Op) (out Outcome) {
 		in.Select = v2types.Select(op.Select)
 		if op.Limit > 0 {
 			in.Limit = aws.Int32(int32(op.Limit))
+		}
+		if op.TotalSegments > 0 {
+			in.Segment, in.TotalSegments = aws.Int32(int32(op.Segment)), aws.Int32(int32(op.TotalSegments))
 		}
 		res, err := c.C.Scan(ctx, in)
 		o := fin(err)
